@@ -1,5 +1,5 @@
 (* Model of the integer-register optimisation of /repo (property C05), as repaired by the fix
-   commits ce974bc 53bcb24 914e8ba 9eb932a 939db5a 3c1869d 2e49243 (and f881ef4, 8c21b75 of other
+   commits ce974bc 53bcb24 914e8ba 9eb932a 939db5a 3c1869d 2e49243 f4b446c (and f881ef4, 8c21b75 of other
    properties).
    Executable Gallina, no proofs here.
 
@@ -54,6 +54,7 @@ Definition is_incdec (t : tok) : bool :=
      *ast.PostfixExpression on that name       -> nil,false   (x++ not handled)
      *ast.PrefixExpression ++/-- whose Right is this register (already rewritten: post-order)
                                                -> nil,false   (fix 9eb932a)
+     *ast.Builtin quote(...), or del(<this register>)                          -> nil,false
      *ast.MapLiteral whose rewritten keys collide (len(Pairs) != len(Order)) -> nil,false
      *ast.CallExpression whose (already rewritten) Function is this register   -> nil,false
      *ast.FunctionLiteral                      -> nil,false
@@ -67,8 +68,16 @@ Definition dup_keys (name : bytes) (l : list (option node * option node)) : bool
   (2 <=? count_keys (fun k => match k with Some c => is_reg_of name c | None => false end) l)
   || (2 <=? count_keys is_none l).
 
+(* del(n) with n this register, or any quote(...) (fix f4b446c) *)
+Definition first_param (ps : option (list (option node))) : option node :=
+  match ps with Some (o :: _) => o | _ => None end.
+Definition builtin_gives_up (p : node -> bool) (t : tok) (ps : option (list (option node))) : bool :=
+  Z.eqb (ttype t) token_QUOTE
+  || (Z.eqb (ttype t) token_DEL && match first_param ps with Some c => p c | None => false end).
+
 Definition modify_register_cb (name : bytes) (n : node) : res node :=
   match n with
+  | NBuiltin t ps => if builtin_gives_up (is_reg_of name) t ps then RBail else ROk n
   | NIdent _ => if is_ident_of name n then ROk (reg_node name) else ROk n
   | NPostfix _ prev => if bytes_eqb (tlit prev) name then RBail else ROk n
   | NPrefix t (Some r) => if is_incdec t && is_reg_of name r then RBail else ROk n
@@ -167,7 +176,8 @@ Section Occurrences.
     match o with None => false | Some l => existsb (param_gives_up rec) l end.
 
   (* the documented bail-outs: a function literal, a postfix ++/-- on the name, a prefix ++/--
-     on the name, the name in call position, a map literal with the name as key twice (and a
+     on the name, the name in call position, a map literal with the name as key twice, del(name), any
+     quote(...) (and a
      macro literal with a parameter of that name), anywhere ast.Modify looks *)
   Fixpoint bails (n : node) : bool :=
     match n with
@@ -187,7 +197,9 @@ Section Occurrences.
     | NMap _ l =>
         any_pairs bails l
         || dup_keys name (map (fun kv => (option_map subst_reg (fst kv), option_map subst_reg (snd kv))) l)
-    | NBuiltin _ ps => any_slice bails ps
+    | NBuiltin t ps =>
+        any_slice bails ps
+        || builtin_gives_up (fun c => is_ident_of name c || is_reg_of name c) t ps
     | NCall _ fn args =>
         fold_opt bails false fn || any_slice bails args
         || match fn with Some c => is_ident_of name c || is_reg_of name c | None => false end
@@ -278,6 +290,9 @@ Inductive skel : Type :=
                                      (* evalForInteger: `for x = a:b {..}` (named) or `for n {..}`;
                                         [rewritable] = the body rewrite answers ok; one element of
                                         [iters] per iteration that starts *)
+| KCatch (body : skel)               (* catch(e): an error result of e becomes a value and evaluation
+                                        goes on (e is a loop or a call here; control results are not
+                                        generated under catch and pass through unchanged) *)
 | KCall (nint : nat) (body : skel).  (* applyFunction of a grol function whose call binds [nint]
                                         integer arguments to non-constant parameter names *)
 
@@ -424,6 +439,11 @@ Section Eval.
             else (GPanic PNoRegisters, m, [])         (* MakeRegister panics *)
           end
         else plain
+    | KCatch body =>
+        match eval body m with
+        | (GError, m1, t) => (GNormal, m1, t)
+        | other => other
+        end
     | KCall nint body =>
         (* extendFunctionEnv: a new environment; each integer argument takes a register *)
         if use_regs c && negb (fix_capacity c) && (num_registers <? nint) then
@@ -462,5 +482,6 @@ Fixpoint pure_signal (s : skel) : signal :=
   | KProbe => GNormal
   | KSeq l => seq_signal pure_signal l
   | KLoop _ _ iters => iters_signal pure_signal iters
+  | KCatch body => match pure_signal body with GError => GNormal | g => g end
   | KCall _ body => let g := pure_signal body in if is_abort g then g else call_signal g
   end.
